@@ -189,6 +189,17 @@ def run_case(case):
     if not c.viol:
         for p, t_ in zip(parts, tr):
             _same(c, _fields(t_), _fields(m.acc_stats(p)), "transform", f"transform element with {len(p)} rows", tags, scale)
+    # a single sample given as a 1-D feature vector, and transform() of a 2-D array (one statistics object per row)
+    rows1 = [_fields(m.acc_stats(X[i])) for i in range(n)]
+    rows2 = [_fields(m.acc_stats(X[i : i + 1])) for i in range(n)]
+    for i in range(n):
+        _same(c, rows1[i], rows2[i], "single_vector", f"acc_stats of row {i} given as a 1-D vector vs as a 1-row batch", tags, scale)
+    per_row = m.transform(X.copy())
+    c.check(isinstance(per_row, list) and len(per_row) == n, "transform", "transform(2-D array) must return one statistics object per row", tags)
+    if isinstance(per_row, list) and len(per_row) == n:
+        for i in range(n):
+            _same(c, _fields(per_row[i]), rows2[i], "transform", f"transform(2-D array) element {i} vs acc_stats of that row", tags, scale)
+    c.transitions += 2 * n + 1
     # the same values presented in other dtypes (integer-valued data sets only): results must not depend on the container type
     if np.all(X == np.round(X)) and np.abs(X).max() < 2**15:
         for dt in ("int16", "int32", "int64", "float32"):
